@@ -256,8 +256,11 @@ static json_object *gen_bad_patch(json_object *doc)
 	if (pre)
 		json_object_array_add(patch, mkop("add", "/zz", NULL, json_object_new_int(1), 1));
 	json_object *o = json_object_new_object();
-	static const char *opsn[] = {"add", "remove", "replace", "move", "copy", "test", "frob", "", "ADD"};
-	const char *opn = opsn[vh_below(9)];
+	/* valid names, unknown names, and near misses of the valid ones: longer, shorter, other case, padded */
+	static const char *opsn[] = {"add", "remove", "replace", "move", "copy", "test", "frob", "", "ADD",
+	                             "removed", "address", "add ", " add", "tests", "test1", "copy-of", "moved", "replacement", "replaces",
+	                             "ad", "remov", "t", "Add", "Remove", "cop", "mov", "copyy", "testt", "move/", "replace\t"};
+	const char *opn = opsn[vh_below(sizeof opsn / sizeof *opsn)];
 	uint32_t defect = vh_below(12);
 	/* op */
 	if (defect == 0)
